@@ -30,8 +30,9 @@ RULE = (
     "tier-direct reads for MultiTierCache and external backing-store writes for SoftTTLCache) over 3-8 keys against one real "
     "cache layer of capacity 1-4 in front of a real KVStore with read/write/delete latency > 0; think times, latencies and "
     "TTLs lie on a microsecond grid so operations overlap and TTL zone boundaries are hit exactly; a final auditor reads every "
-    "key (and flushes) at quiescence. 10 % of the cases drive a PageCache (1-4 clients x read_page/write_page/flush over 4-9 page "
-    "ids, capacity 1-5, read-ahead 0-3). non-trivial = at least two client operations overlapped in time AND at least one "
+    "key (and flushes) at quiescence. 12 % of the cases drive a PageCache (1-4 clients x read_page/write_page/flush over 4-9 page "
+    "ids, capacity 1-5, read-ahead 0-3; more than half of them 3-5 clients hammering one hot page out of 2-4 with capacity 1-3 "
+    "and disk write latency >= read latency). non-trivial = at least two client operations overlapped in time AND at least one "
     "capacity eviction / promotion / stale-or-expired TTL zone read happened. distinct = distinct digests of "
     "(operation history with invoke/return stamps and results, engine delivery log)"
 )
@@ -88,7 +89,7 @@ EXPECTED_PROBES = [
     # PageCache family
     "probe.page_eviction", "probe.page_cache_full", "probe.page_readahead_loaded", "probe.page_dirty_eviction_written_back",
     "probe.page_readahead_window_over_dirty_page", "probe.page_readahead_over_dirty_page_with_room", "probe.page_write_hit",
-    "probe.page_flush_wrote", "probe.page_audit_completed",
+    "probe.page_flush_wrote", "probe.page_audit_completed", "probe.page_read_write_miss_same_page_behind_dirty_victim",
 ]
 SHRINK_SKIP = ("family", "klass")
 
@@ -172,20 +173,37 @@ def _clients(rng, fam, nk, weights, *, own, extra_gaps=(), tiers=0):
 
 def _gen_page(rng):
     """PageCache: 1-4 clients x read_page/write_page/flush over 4-9 page ids, capacity 1-5, read-ahead 0-3."""
-    nk = rng.randrange(4, 10)
-    n_clients = rng.choice((1, 1, 2, 3, 4))
-    sc = {"seed": rng.getrandbits(48), "family": "page", "n_keys": nk, "cap": rng.randrange(1, 6),
-          "ra": rng.choice((0, 1, 1, 2, 2, 3)), "audit": True,
-          "lat": {"r": rng.choice((100, 200, 500, 1000)), "w": rng.choice((100, 200, 500, 1000, 2000))},
-          "klass": "page-sequential" if n_clients == 1 else "page-concurrent"}
+    hammer = rng.random() < 0.55
+    if hammer:
+        # several clients hammer one hot page with interleaved read and write misses over very few pages, while dirty
+        # victims are being written back (disk write latency >= read latency): check-then-act across a write-back wait
+        nk = rng.randrange(2, 5)
+        n_clients = rng.choice((3, 3, 4, 5))
+        r = rng.choice((100, 200, 500, 1000))
+        sc = {"seed": rng.getrandbits(48), "family": "page", "n_keys": nk, "cap": rng.choice((1, 2, 2, 3)),
+              "ra": rng.choice((0, 0, 0, 1)), "audit": True,
+              "lat": {"r": r, "w": r * rng.choice((1, 2, 2, 4))}, "klass": "page-hammer"}
+    else:
+        nk = rng.randrange(4, 10)
+        n_clients = rng.choice((1, 1, 2, 3, 4))
+        sc = {"seed": rng.getrandbits(48), "family": "page", "n_keys": nk, "cap": rng.randrange(1, 6),
+              "ra": rng.choice((0, 1, 1, 2, 2, 3)), "audit": True,
+              "lat": {"r": rng.choice((100, 200, 500, 1000)), "w": rng.choice((100, 200, 500, 1000, 2000))},
+              "klass": "page-sequential" if n_clients == 1 else "page-concurrent"}
     clients = []
     for _ in range(n_clients):
         ops = []
         for _ in range(min(30, int(rng.expovariate(1 / 12)) + 4)):
-            o = rng.choices(PG.PAGE_OPS, (10, 8, 1.5))[0]
-            op = {"o": o, "g": _gap(rng)}
-            if o != "pflush":
-                op["k"] = rng.randrange(nk)
+            if hammer:
+                o = rng.choices(PG.PAGE_OPS, (9, 10, 0.7))[0]
+                op = {"o": o, "g": rng.choice((0, 0, 0, 100, 100, 200, 500, sc["lat"]["r"], sc["lat"]["w"]))}
+                if o != "pflush":
+                    op["k"] = 0 if rng.random() < 0.5 else rng.randrange(nk)
+            else:
+                o = rng.choices(PG.PAGE_OPS, (10, 8, 1.5))[0]
+                op = {"o": o, "g": _gap(rng)}
+                if o != "pflush":
+                    op["k"] = rng.randrange(nk)
             ops.append(op)
         clients.append({"t0": rng.choice((0, 0, 100, 500)), "ops": ops})
     sc["clients"] = clients
@@ -193,7 +211,7 @@ def _gen_page(rng):
 
 
 def gen(rng, tier):
-    fam = rng.choices(H.FAMILIES + ("page",), (0.56, 0.17, 0.17, 0.10))[0]
+    fam = rng.choices(H.FAMILIES + ("page",), (0.54, 0.17, 0.17, 0.12))[0]
     if fam == "page":
         return _gen_page(rng)
     nk = rng.randrange(3, 9)
